@@ -1,5 +1,7 @@
 package k12
 
+import "github.com/cloudflare/circl/internal/sha3"
+
 // C15: KangarooTwelve (single lane): the output stream is independent of how the input is split
 // across writes and of cloning the state midway, for inputs crossing the 8192-byte chunk boundary.
 // The Keccak permutation is an uninterpreted function (set keccakuf); everything above it (leaf /
@@ -38,4 +40,95 @@ func ZZ_C15_k12_clone_and_split_independence() {
 	// and the original is not disturbed by the clone's activity
 	_, _ = orig.Write(msg[n:])
 	zzAssert(zzBytesEq(zzK12Out(&orig), want), "original unaffected by its clone")
+}
+
+// ---- reference: KangarooTwelve as specified (draft-irtf-cfrg-kangarootwelve-10 / RFC 9861 §3),
+// transcribed literally over TurboSHAKE128 (12-round Keccak-p[1600], rate 168), sharing only the
+// permutation (an uninterpreted function in the symbolic run, the real one in the native replay).
+
+func zzTurboShake128(msg []byte, d byte, outLen int) []byte {
+	const rate = 168
+	var a [25]uint64
+	buf := append(append([]byte{}, msg...), d)
+	for len(buf)%rate != 0 {
+		buf = append(buf, 0)
+	}
+	buf[len(buf)-1] ^= 0x80
+	for off := 0; off < len(buf); off += rate {
+		for i := 0; i < rate/8; i++ {
+			var w uint64
+			for j := 0; j < 8; j++ {
+				w |= uint64(buf[off+8*i+j]) << (8 * uint(j))
+			}
+			a[i] ^= w
+		}
+		sha3.KeccakF1600(&a, true)
+	}
+	out := []byte{}
+	for {
+		for i := 0; i < rate/8; i++ {
+			for j := 0; j < 8; j++ {
+				if len(out) == outLen {
+					return out
+				}
+				out = append(out, byte(a[i]>>(8*uint(j))))
+			}
+		}
+		sha3.KeccakF1600(&a, true)
+	}
+}
+
+func zzLengthEncode(x int) []byte {
+	var be []byte
+	for v := x; v > 0; v >>= 8 {
+		be = append([]byte{byte(v)}, be...)
+	}
+	return append(be, byte(len(be)))
+}
+
+func zzK12Ref(msg, c []byte, outLen int) []byte {
+	const chunk = 8192
+	s := append(append(append([]byte{}, msg...), c...), zzLengthEncode(len(c))...)
+	if len(s) <= chunk {
+		return zzTurboShake128(s, 0x07, outLen)
+	}
+	final := append(append([]byte{}, s[:chunk]...), 0x03, 0, 0, 0, 0, 0, 0, 0)
+	n := 0
+	for off := chunk; off < len(s); off += chunk {
+		end := off + chunk
+		if end > len(s) {
+			end = len(s)
+		}
+		final = append(final, zzTurboShake128(s[off:end], 0x0B, 32)...)
+		n++
+	}
+	final = append(final, zzLengthEncode(n)...)
+	final = append(final, 0xFF, 0xFF)
+	return zzTurboShake128(final, 0x06, outLen)
+}
+
+// K12(M, C) equals the specification for every message whose padded length |M|+|C|+|enc(|C|)|
+// is at, just below and just above the 8192-byte chunk size (single tree node vs. final node with
+// one leaf), and for short messages around the sponge rate
+//
+//zz: prop=C15 tier=quick backend=bv use=keccakuf timeout=300 budget=900
+func ZZ_C15_k12_equals_specification_at_chunk_boundary() {
+	n := zzPick("msglen", 0, 1, 166, 167, 168, 8190, 8191, 8192, 8193)
+	msg := make([]byte, n)
+	zzFill("msg", msg)
+	s := newDraft10([]byte{}, 1)
+	_, _ = s.Write(msg)
+	zzAssert(zzBytesEq(zzK12Out(&s), zzK12Ref(msg, []byte{}, 33)), "K12(M, empty) = specification")
+}
+
+//zz: prop=C15 tier=quick backend=bv use=keccakuf timeout=300 budget=900
+func ZZ_C15_k12_equals_specification_with_customisation() {
+	n := zzPick("msglen", 0, 8186, 8187, 8188)
+	msg := make([]byte, n)
+	zzFill("msg", msg)
+	c := make([]byte, 3)
+	zzFill("c", c)
+	s := newDraft10(c, 1)
+	_, _ = s.Write(msg)
+	zzAssert(zzBytesEq(zzK12Out(&s), zzK12Ref(msg, c, 33)), "K12(M, C) = specification")
 }
